@@ -12,7 +12,7 @@ the differential run of `harness/h_getopts.c`).  Proofs here are glue on the nam
 Full statement (properties.jsonl) and where each clause is proved, for every well-formed option table (`WF`)
 and every sequence of sources:
 * (a) value = last source that set it, default otherwise; second setting by the same source is a usage error:
-  `sources_are_setting_sequences_*`, `spoof_is_cmdline_of_its_words`, `cfg_line_*`, `long_option_*_form`, `long_flag_form`, `short_option_*_form`, `concatenated_short_flags`, `successful_*_is_history`, `last_setter_wins`, `untouched_keeps_state`, `fresh_object_all_default`, `reuse_restores_defaults`,
+  `sources_are_setting_sequences_*`, `spoof_is_cmdline_of_its_words`, `cfg_line_*`, `long_option_*_form`, `long_flag_form`, `short_option_*_form`, `concatenated_short_flags`, `successful_*_is_history`, `cmdline_success_is_history`, `cfgfile_success_is_history`, `environment_success_is_history`, `last_setter_wins`, `untouched_keeps_state`, `fresh_object_all_default`, `reuse_restores_defaults`,
   `same_source_twice_is_usage_error`, `set_after_toggle_by_same_source_is_usage_error`
 * (b) toggles: `set_option_spec`, `toggle_switches_others_off`, `optlist_element_denotes_named_option`, `optlist_reads_back_names`
 * (c) abbreviations: `abbrev_full_name_resolves`, `abbrev_resolves_iff_unique`, `abbrev_ambiguous_iff`, `abbrev_unknown_iff`
@@ -105,6 +105,26 @@ theorem successful_cmdline_is_history (is : List CmdItem) (g g' : G) (m : Bool)
     (h : runCmd (fun g' => .done g' .ok false) g is = .done g' .ok m) :
     ∃ g0, runSets g (cmdEvs is) = some g0 ∧ g'.val = g0.val ∧ g'.setby = g0.setby ∧ g'.opts = g0.opts :=
   runCmd_ok_runSets is g g' m h
+
+/-- composed: a command line / config file / environment that is processed successfully is a `set_option` history over
+    the settings parsed from it, so `last_setter_wins`, `untouched_keeps_state`, `toggle_switches_others_off` apply to
+    it; since they hold for an arbitrary initial object, they apply to every source of a sequence in turn -/
+theorem cmdline_success_is_history (g g' : G) (argv : List Str) (m : Bool) (h : processCmdline g argv = .done g' .ok m) :
+    ∃ g0, runSets { g with argv := argv, optind := 1 } (cmdEvs (parseCmd g.opts 1 (argv.drop 1) false)) = some g0 ∧
+      g'.val = g0.val ∧ g'.setby = g0.setby ∧ g'.opts = g0.opts := by
+  rw [processCmdline_eq] at h
+  exact runCmd_ok_runSets _ _ g' m h
+
+theorem cfgfile_success_is_history (g g' : G) (content : Str) (m : Bool) (h : processConfigfile g content = .done g' .ok m) :
+    ∃ g0, runSets g (cfgEvs (byCfgfile + g.nfiles) ((fileLines content).filterMap (cfgItem g.opts))) = some g0 ∧
+      g' = { g0 with nfiles := g0.nfiles + 1 } := by
+  rw [processConfigfile_eq] at h
+  exact runCfg_ok_runSets _ _ g g' m h
+
+theorem environment_success_is_history (g g' : G) (env : Str → Option Str) (m : Bool) (h : processEnvironment g env = .done g' .ok m) :
+    runSets g (envEvents env 0 g.opts) = some g' := by
+  rw [processEnvironment_eq] at h
+  exact runEvs_ok_runSets _ g g' m h
 
 theorem last_setter_wins (pre post : List Ev) (e : Ev) (g g' : G) (hinv : Inv g)
     (hi : ∀ e' ∈ pre ++ e :: post, e'.i < g.opts.length)
